@@ -771,8 +771,9 @@ def check(chk):
              'Interpolate steps up to it with the complete abstract state '
              'after each; evaluations = Interpolate steps executed; '
              'distinct by all those inputs; non-trivial when at some point '
-             'of the step one of the clauses formula (exact value), bounds '
-             '(a source strictly inside the support) or linear (order1, '
+             'of the step one of the clauses formula (exact value, some '
+             'source contributing), bounds (a source strictly inside the '
+             'support) or linear (order1, '
              'moment matrix well conditioned) applies, as reported by TLC '
              '(per_step.applied)',
         exhaustive=False,
